@@ -1088,8 +1088,14 @@ fn fam_hazards(ctx: &mut Ctx) {
         match p_json_table(&b, &agg) {
             Ok(()) => ctx.case("hazard-duplicate-columns", "dup", "pass", info),
             Err((class, what)) => {
-                let verdict = if class == "C18/duplicate-column-names" { "known" } else { "viol" };
-                ctx.case("hazard-duplicate-columns", "dup", verdict, serde_json::json!({"class": class, "what": what, "case": info}))
+                // a table whose column list holds a name twice can no longer be produced by a query
+                // (/repo 7200e5c rejects the stage; checked end to end just below): the printer's
+                // behaviour on such a hand-made table is not a state the property speaks about
+                if class == "C18/duplicate-column-names" {
+                    ctx.case("hazard-duplicate-columns", "", "skip", serde_json::json!({"why": "hand-made table with a duplicate column name: unreachable since /repo 7200e5c"}))
+                } else {
+                    ctx.case("hazard-duplicate-columns", "dup", "viol", serde_json::json!({"class": class, "what": what, "case": info}))
+                }
             }
         }
     }
@@ -1100,10 +1106,22 @@ fn fam_hazards(ctx: &mut Ctx) {
         Ok(J::Arr(rows)) => rows.iter().any(|x| if let J::Obj(kvs) = x { let mut s = std::collections::HashSet::new(); kvs.iter().any(|kv| !s.insert(kv.0.clone())) } else { false }),
         _ => false,
     };
-    if dup {
-        ctx.case("hazard-duplicate-columns", "e2e", "known", serde_json::json!({"class": "C18/duplicate-column-names", "what": "two aggregate functions with the same default name give an object with a duplicate key", "case": info}));
+    if dup || (run.compiled && !text.contains("_count")) {
+        ctx.case("hazard-duplicate-columns", "e2e", "viol", serde_json::json!({"class": "C18/duplicate-column-names", "what": "two aggregate functions with the same default name give an object with a duplicate key", "case": info}));
     } else {
+        // rejected at compile time (or both columns present under different names)
         ctx.case("hazard-duplicate-columns", "e2e", "pass", info);
+    }
+    // generated: every pair of functions with the same default column name, and a function named like a key
+    for (i, q) in ["* | json | count, count(n > 1)", "* | json | sum(n), sum(m)", "* | json | avg(n), average(m) by k", "* | json | p50(n), pct50(m)", "* | json | count as k by k", "* | json | min(n) as x, max(n) as x", "* | json | count_distinct(n), count_distinct(m) by k"].iter().enumerate() {
+        let run = imp::run(q, b"{\"n\":1,\"m\":2,\"k\":\"a\"}\n{\"n\":3,\"m\":5,\"k\":\"a\"}\n", "json", 10);
+        let text = String::from_utf8_lossy(&run.stdout).to_string();
+        let info = serde_json::json!({"query": q, "got": text, "compiled": run.compiled});
+        if run.compiled || run.panicked.is_some() || !text.is_empty() {
+            ctx.case("hazard-duplicate-columns", &format!("gen{}", i), "viol", serde_json::json!({"class": "C18/duplicate-column-names", "what": "an aggregation with two columns of one name was accepted: one of the two functions cannot be in the output", "case": info}));
+        } else {
+            ctx.case("hazard-duplicate-columns", &format!("gen{}", i), "pass", info);
+        }
     }
     // nested object key order across two prints of equal rows
     let mk = || {
